@@ -1,0 +1,13 @@
+//go:build verif
+
+package fieldpath
+
+/*@
+extern GetNestedField
+  props C16 C05 C20
+  option pure
+
+extern IsNestedField
+  props C16 C05 C20
+  option pure
+@*/
